@@ -21,8 +21,8 @@ Step == /\ l <= Len(Trace) /\ l' = l + 1
            \/ /\ Ev.op = "ack"
               /\ LET k == <<Ev.s, Ev.id>> IN
                  IF Q!AckOK(entries, k, Ev.ty)
-                 THEN /\ Ev.ok /\ Len(Ev.cbs) = 1 /\ Ev.cbs[1].tag = entries[k].tag /\ ~Ev.cbs[1].expired
-                      /\ entries' = Q!Drop(entries, {k})
+                 THEN /\ Ev.ok /\ Len(Ev.cbs) = 1 /\ Ev.cbs[1].tag = entries[Q!AK(k, Ev.ty)].tag /\ ~Ev.cbs[1].expired
+                      /\ entries' = Q!Drop(entries, {Q!AK(k, Ev.ty)})
                  ELSE ~Ev.ok /\ Len(Ev.cbs) = 0 /\ UNCHANGED entries
            \/ /\ Ev.op = "sweep" /\ NoDupCb
               /\ \A i \in 1..Len(Ev.cbs) : Ev.cbs[i].expired
